@@ -42,9 +42,12 @@ type srcFault struct {
 }
 
 type faultCase struct {
-	Prev      int      `json:"prev"`      // content previously stored under the target id (-1: none)
-	Data      int      `json:"data"`      // content being Put
-	Shared    bool     `json:"shared"`    // another id already holds Data's content
+	Prev   int  `json:"prev"`   // content previously stored under the target id (-1: none)
+	Data   int  `json:"data"`   // content being Put
+	Shared bool `json:"shared"` // another id already holds Data's content
+	// Dangling: another id's index entry names Data's output, but the output file is gone - the state Trim leaves
+	// behind when the output file is stale while the index entry was refreshed by plain Get calls (not damage).
+	Dangling  bool     `json:"dangling,omitempty"`
 	Damage    string   `json:"damage"`    // pre-damage of the target output file: "", shorter, longer, flip, empty
 	Unrelated int      `json:"unrelated"` // unrelated entries present (1-3)
 	Src       srcFault `json:"src"`
@@ -54,9 +57,10 @@ type faultCase struct {
 }
 
 const (
-	targetID  = 0
-	sharedID  = 1
-	unrelBase = 2 // ids 2,3,4
+	targetID   = 0
+	sharedID   = 1
+	unrelBase  = 2 // ids 2,3,4
+	danglingID = 5
 )
 
 var unrelContent = []int{1, 7, 3}
@@ -164,6 +168,10 @@ func setup(c faultCase) (string, *vt.Fail) {
 	if c.Shared {
 		rc.PutBytes(cachekit.ID(sharedID), cachekit.Content(c.Data))
 	}
+	if c.Dangling && !c.Shared && c.Damage == "" && c.Prev != c.Data {
+		rc.PutBytes(cachekit.ID(danglingID), cachekit.Content(c.Data))
+		os.Remove(cachekit.DataPath(d, cachekit.Sum(cachekit.Content(c.Data))))
+	}
 	if c.Damage != "" {
 		p := cachekit.DataPath(d, cachekit.Sum(cachekit.Content(c.Data)))
 		b, err := os.ReadFile(p)
@@ -246,8 +254,8 @@ func describe(c faultCase, ops []fos.Op, putErr error, crashed bool) string {
 	for _, o := range ops {
 		tr = append(tr, o.Desc)
 	}
-	return fmt.Sprintf("scenario{prev=%d data=%d(%d bytes) shared=%v damage=%q} source=%+v fault{op %d=%s kind=%s cut=%d} -> Put err=%v crashed=%v; trace=%v",
-		c.Prev, c.Data, len(cachekit.Content(c.Data)), c.Shared, c.Damage, c.Src, c.K, op, fos.Kind(c.Kind), c.Cut, putErr, crashed, tr)
+	return fmt.Sprintf("scenario{prev=%d data=%d(%d bytes) shared=%v dangling=%v damage=%q} source=%+v fault{op %d=%s kind=%s cut=%d} -> Put err=%v crashed=%v; trace=%v",
+		c.Prev, c.Data, len(cachekit.Content(c.Data)), c.Shared, c.Dangling, c.Damage, c.Src, c.K, op, fos.Kind(c.Kind), c.Cut, putErr, crashed, tr)
 }
 
 func verify(d string, c faultCase, ops []fos.Op, putErr error, crashed bool) *vt.Fail {
@@ -260,6 +268,9 @@ func verify(d string, c faultCase, ops []fos.Op, putErr error, crashed bool) *vt
 	ids := []int{targetID}
 	if c.Shared {
 		ids = append(ids, sharedID)
+	}
+	if c.Dangling && !c.Shared && c.Damage == "" && c.Prev != c.Data {
+		ids = append(ids, danglingID)
 	}
 	for _, i := range ids {
 		id := cache.ActionID(cachekit.ID(i))
@@ -328,11 +339,17 @@ func verify(d string, c faultCase, ops []fos.Op, putErr error, crashed bool) *vt
 var scenarios = []faultCase{
 	{Prev: -1, Data: 5}, {Prev: -1, Data: 0}, {Prev: -1, Data: 2}, {Prev: -1, Data: 4}, // new entries: 4097, 0, 139, 4096 bytes
 	{Prev: 2, Data: 5}, {Prev: 5, Data: 2}, {Prev: 4, Data: 5}, // overwrite with different size
-	{Prev: 5, Data: 5},                                         // re-put identical
+	{Prev: 5, Data: 5},                                                  // re-put identical
 	{Prev: -1, Data: 5, Shared: true}, {Prev: 2, Data: 5, Shared: true}, // content shared with another id
 	{Prev: 5, Data: 5, Damage: "shorter"}, {Prev: 5, Data: 5, Damage: "longer"}, {Prev: 5, Data: 5, Damage: "flip"}, {Prev: 5, Data: 5, Damage: "empty"},
 	{Prev: -1, Data: 5, Damage: "flip"}, {Prev: -1, Data: 5, Damage: "longer", Shared: true},
-	{Prev: -1, Data: 0, Damage: "flip"}, // zero-size output damaged to non-empty
+	{Prev: -1, Data: 0, Damage: "flip"},                                     // zero-size output damaged to non-empty
+	{Prev: -1, Data: 5, Dangling: true}, {Prev: 2, Data: 5, Dangling: true}, // another id's index entry names the output, the output file was trimmed
+	// every file-operation fault under a misbehaving source (second pass differs, fails or ends early)
+	{Prev: -1, Data: 5, Dangling: true, Src: srcFault{Mode: "change", Pass: 2, At: 0}}, {Prev: -1, Data: 5, Dangling: true, Src: srcFault{Mode: "change", Pass: 2, At: 4096}},
+	{Prev: -1, Data: 2, Dangling: true, Src: srcFault{Mode: "change", Pass: 2, At: 70}}, {Prev: -1, Data: 5, Src: srcFault{Mode: "change", Pass: 2, At: 2048}},
+	{Prev: -1, Data: 5, Dangling: true, Src: srcFault{Mode: "err", Pass: 2, At: 2048}}, {Prev: 2, Data: 5, Src: srcFault{Mode: "eof", Pass: 2, At: 4000}},
+	{Prev: -1, Data: 5, Shared: true, Src: srcFault{Mode: "extra", Pass: 2}},
 }
 
 var kinds = []fos.Kind{fos.FailBefore, fos.ShortWriteThenFail, fos.CrashBefore, fos.CrashAfter, fos.CrashAfterShortWrite}
@@ -490,12 +507,13 @@ func TestSourceProduct(t *testing.T) {
 // ---- random product (rapid) ----
 
 func genFault(t *rapid.T) faultCase {
-	dataPool := []int{0, 2, 4, 5, 6}
+	dataPool := []int{0, 2, 4, 5, 6, 8, 9, 10}
 	c := faultCase{Prev: -1, Data: rapid.SampledFrom(dataPool).Draw(t, "data"), Unrelated: rapid.IntRange(1, 3).Draw(t, "unrelated")}
 	if rapid.Bool().Draw(t, "hasprev") {
 		c.Prev = rapid.SampledFrom(dataPool).Draw(t, "prev")
 	}
 	c.Shared = rapid.IntRange(0, 3).Draw(t, "shared") == 0
+	c.Dangling = rapid.IntRange(0, 3).Draw(t, "dangling") == 1
 	if rapid.IntRange(0, 3).Draw(t, "damaged") == 0 {
 		c.Damage = rapid.SampledFrom([]string{"shorter", "longer", "flip", "empty"}).Draw(t, "damage")
 	}
